@@ -22,7 +22,7 @@ def main():
     democmd = None
     for f in demo:
         if f.endswith(".sh"):
-            democmd = "sh _seed/%s %s" % (f, wt)
+            democmd = "bash _seed/%s %s" % (f, wt)
         elif f.endswith(".py"):
             democmd = "python3 _seed/%s %s" % (f, wt)
     rec = {"name": name, "property": pid, "when": time.strftime("%F %T")}
